@@ -2160,9 +2160,18 @@ class Circuit(Unitary, StateVectorMap, Collection[Operation]):
 
     def batch_unfold(self, points: Sequence[CircuitPointLike]) -> None:
         """Unfold the CircuitGates at `points` into the circuit."""
-        points = {(point[0], self[point].location[0]) for point in points}
-        for point in reversed(sorted(points)):
-            self.unfold(point)
+        points = {
+            (self.normalize_point(point)[0], self[point].location[0])
+            for point in points
+        }
+        points = sorted(points, reverse=True)
+        ops = [self[point] for point in points]
+        for (cycle, qudit), op in zip(points, ops):
+            # Unfolding a block can open new cycles in front of the other
+            # blocks of its cycle, which pushes them back.
+            while self._circuit[cycle][qudit] is not op:
+                cycle += 1
+            self.unfold((cycle, qudit))
 
     def unfold_all(self) -> None:
         """Unfold all CircuitGates in the circuit."""
